@@ -137,6 +137,10 @@ func (fe *FnEnc) merge(edges []edge) *State {
 			if v, ok := e.st.ghost[k]; ok {
 				vals = append(vals, v)
 				conds = append(conds, pcs[i])
+			} else if _, isDefer := k.(deferKey); isDefer {
+				// a path that never executed the defer statement has not pushed it
+				vals = append(vals, tFalse)
+				conds = append(conds, pcs[i])
 			}
 		}
 		res.ghost[k] = fe.mergeVals("mg", vals, conds)
@@ -459,6 +463,7 @@ func (fe *FnEnc) loopHead(st *State, l *Loop) {
 		if k != "alloc" {
 			if t, ok := l.writes.types[k]; ok {
 				fe.compT[k] = t
+				fe.sorts.sortOf(t)
 			}
 			fe.havocComp(st, k, l.writes.comps[k])
 		}
@@ -904,6 +909,24 @@ func (fe *FnEnc) execSlice(st *State, x *ssa.Slice) {
 func (fe *FnEnc) execUnOp(st *State, x *ssa.UnOp) {
 	switch x.Op {
 	case token.MUL: // load
+		if fv, ok := x.X.(*ssa.FreeVar); ok && !fe.fvStored(fv) {
+			// a captured variable this closure never assigns: its value is fixed for the whole call
+			if v, ok := fe.fvVals[fv]; ok {
+				fe.setReg(x, v)
+				return
+			}
+			a := fe.addrOf(fe.get(st, fv), fv.Type())
+			ent := fe.entrySnap()
+			v := fe.load(ent, a)
+			if !fe.dry {
+				v = fe.define("fv."+fv.Name(), v)
+				fe.assumeWF(st, x.Type(), v)
+			}
+			rv := RV{T: v, Typ: x.Type(), Valid: true}
+			fe.fvVals[fv] = rv
+			fe.setReg(x, rv)
+			return
+		}
 		av := fe.get(st, x.X)
 		a := fe.derefAddr(st, av, x.X, x.Pos())
 		if a == nil {
@@ -1061,6 +1084,7 @@ func (fe *FnEnc) execMakeInterface(st *State, x *ssa.MakeInterface) {
 	r := fe.newRef(st)
 	vs := fe.sorts.sortOf(t)
 	cn, cs := "box."+stripQ(vs), arrSort(sInt, vs)
+	fe.compT[cn] = t
 	fe.setComp(st, cn, cs, tStore(fe.getComp(st, cn, cs), r, fe.val(rv)))
 	fe.setReg(x, RV{T: mkIface(tid, r)})
 }
@@ -1412,4 +1436,19 @@ func smallBlock(b *ssa.BasicBlock) bool {
 		}
 	}
 	return true
+}
+
+func (fe *FnEnc) fvStored(fv *ssa.FreeVar) bool {
+	for _, ref := range *fv.Referrers() {
+		switch r := ref.(type) {
+		case *ssa.Store:
+			if r.Addr == ssa.Value(fv) {
+				return true
+			}
+		case *ssa.UnOp, *ssa.DebugRef:
+		default:
+			return true // passed on: someone else may write it
+		}
+	}
+	return false
 }
